@@ -34,8 +34,16 @@ def generate(rng, tier, focus):
     while pending:
         k = rng.randint(1, len(pending))
         for s in pending[:k]:
-            ops.append({"op": "add_end", "species": s, "via": rng.choice(["files", "files", "object"])})
+            ops.append({"op": "add_end", "species": s, "via": rng.choice(["files", "files", "object", "attribute"])})
+            attached.add(s)
         pending = pending[k:]
+        if rng.random() < 0.15 and attached:
+            # the documented attribute path also detaches: end = None (and possibly attaches again later)
+            victim = rng.choice(sorted(attached))
+            ops.append({"op": "detach", "species": victim})
+            attached.discard(victim)
+            if rng.random() < 0.5:
+                pending.append(victim)
         c = rng.random()
         if c < 0.25:
             ops.append({"op": "extrapolate", "out": rng.choice(["out0.gro", "out1.gro"])})     # end attached after the last calc
@@ -108,17 +116,28 @@ def execute(trace, ctx):
                 kind = op["op"]
                 if kind == "add_end":
                     s = op["species"]
+                    if s in attached:
+                        continue          # not a scenario of the generator (can appear while shrinking)
                     p = paths["species"][s]
-                    if op["via"] == "files":
+                    if op["via"] in ("files", "attribute"):
                         mol = Molecule.from_files(p["gro_end"], p["top_end"])
                     else:
                         mol = gen.make_molecule(species[s]["end"])
-                    manager.add_end_molecule(mol)
-                    first_time = s not in attached
+                    if op["via"] == "attribute":
+                        manager.molecule_correspondence[species[s]["name"]].end = mol      # as the docstring and the CLI do
+                        ctx.probe("end_attached_through_attribute")
+                    else:
+                        manager.add_end_molecule(mol)
                     attached[s] = True
-                    if first_time:
-                        mapped_at[s] = False
+                    mapped_at.setdefault(s, False)       # an exchange map, once built, stays with the alignment
                     ctx.op(kind, op["via"])
+                elif kind == "detach":
+                    s = op["species"]
+                    if s in attached:
+                        manager.molecule_correspondence[species[s]["name"]].end = None
+                        del attached[s]
+                        ctx.probe("end_detached")
+                    ctx.op(kind)
                 elif kind == "align":
                     Alignment.STEPS_FACTOR = op["steps_factor"]
                     try:
